@@ -62,7 +62,7 @@ REQUIRED_POINTS = list(POINTS)
 REQUIRED_CLAUSES = [history.CLAUSE, "L.range", "B<=i+0.05", "R.within-orbit",
                     "kepler.direction", "kepler.radius",
                     "evaluator==direct-sum.L", "evaluator==direct-sum.B",
-                    "evaluator==direct-sum.R", "fk5.correction",
+                    "evaluator==direct-sum.R", "evaluator==direct-sum.caller-tables", "fk5.correction",
                     "apparent.correction", "daily.longitude-increases",
                     "daily.rate-keplerian", "second.continuity",
                     "series-rate==element-rate", "kepler-third-law"]
@@ -214,7 +214,7 @@ def case_epoch(mon, planet, jde):
     mon.stat("evaluator_B_err_rad", errB, case)
     mon.check("evaluator==direct-sum.B", errB <= 1e-11,
               dict(case, library_rad=b_.rad(), direct=float(db)))
-    mon.check("evaluator==direct-sum.R", errR <= 1e-11,
+    mon.check("evaluator==direct-sum.R", "evaluator==direct-sum.caller-tables", errR <= 1e-11,
               dict(case, library=r_, direct=float(dr)))
     mon.check("geometric(tofk5=False)==vsop_pos", L0() == l_() and B0() == b_()
               and R0 == r_, dict(case, vsop=[l_(), b_(), r_],
@@ -237,6 +237,59 @@ def case_epoch(mon, planet, jde):
               dict(case, apparent_minus_geometric=wrap(La() - L1()),
                    nutation=nut, aberration=ab))
     mon.check("epoch-unchanged", e.jde() == jd, case)
+
+
+def case_tables(mon, planet, jde, sv):
+    """vsop_pos() is public and takes the tables from the caller: truncated
+    temporaries, a caller-owned copy that is edited in place between calls,
+    another planet's tables - all at one epoch - must each give the direct
+    summation of exactly the tables passed."""
+    from pymeeus.Epoch import Epoch
+    from pymeeus import Coordinates as C
+    rng = random.Random(sv)
+    mod = importlib.import_module("pymeeus." + planet)
+    e = Epoch(jde)
+    t = (e.jde() - 2451545.0) / 365250.0
+    own = [[list(map(tuple, ser)) for ser in tab]
+           for tab in (mod.VSOP87_L, mod.VSOP87_B, mod.VSOP87_R)]
+    variants = []
+    for k in (1, 2, 3, rng.randrange(1, 6)):
+        variants.append(("temporaries L[:%d]" % k, None, k))
+    variants.append(("own copy", own, None))
+    variants.append(("own copy, edited in place", own, "edit"))
+    variants.append(("own copy, edited in place", own, "edit"))
+    for label, tabs, arg in variants:
+        mon.evals += 1
+        if tabs is None:
+            L, B, R = mod.VSOP87_L[:arg], mod.VSOP87_B[:arg], \
+                mod.VSOP87_R[:arg]
+        else:
+            if arg == "edit":
+                for tab in tabs:
+                    ser = tab[rng.randrange(len(tab))]
+                    if len(ser) > 1:
+                        ser.pop(rng.randrange(len(ser)))
+                    ser[0] = (ser[0][0] * 1.5, ser[0][1], ser[0][2])
+            L, B, R = tabs
+        case = {"planet": planet, "jde": jde, "seed": sv, "tables": label}
+        try:
+            l_, b_, r_ = C.vsop_pos(e, L, B, R)
+        except Exception as ex_:
+            mon.dev("evaluator==direct-sum.caller-tables",
+                    dict(case, raised=repr(ex_)))
+            continue
+        dl, db, dr = direct_sum(L, t), direct_sum(B, t), direct_sum(R, t)
+        errL = abs(Decimal(l_.rad()) - red_2pi(dl))
+        errL = float(min(errL, 2 * PI60 - errL))
+        errB = abs(float(Fraction(math.radians(b_())) - db))
+        errR = abs(float(Fraction(r_) - dr))
+        tolL = max(1e-11, 8 * math.ulp(abs(float(dl))))
+        mon.check("evaluator==direct-sum.caller-tables",
+                  errL <= tolL and errB <= 1e-9 and errR <= 1e-11,
+                  lambda: dict(case, library=[l_.rad(), b_(), r_],
+                               direct=[float(dl), float(db), float(dr)],
+                               errors=[errL, errB, errR]))
+    mon.cls("caller-supplied-tables", ("tables", planet, jde, sv))
 
 
 def case_walk(mon, planet, jde0, ndays):
@@ -323,7 +376,7 @@ def case_const(mon, planet):
               dict(case, n_deg_per_day=n, gauss_n=nk))
 
 
-CASES = {"history": history.case, "epoch": case_epoch, "walk": case_walk, "second": case_second,
+CASES = {"tables": case_tables, "history": history.case, "epoch": case_epoch, "walk": case_walk, "second": case_second,
          "const": case_const}
 
 
@@ -356,6 +409,10 @@ def run(mon, spec):
             if k % 8 == 0:
                 mon.begin("second", [planet, jd])
                 case_second(mon, planet, jd)
+            if k % 16 == 0:
+                sv = rng.randrange(1 << 30)
+                mon.begin("tables", [planet, jd, sv])
+                case_tables(mon, planet, jd, sv)
         return
     # walks
     ndays = int(PERIOD[planet]) + 2
